@@ -50,8 +50,8 @@ PROPS = {
     },
     "C02": {
         "theorems": [],
-        "suites": [{"name": "negotiate", "quick": 1500, "thorough": 40000}],
-        "required_tags": ["negotiate.outcome:backend", "negotiate.outcome:reject", "negotiate.outcome:unknown"],
+        "suites": [{"name": "negotiate", "quick": 1500, "thorough": 40000}, {"name": "reader", "quick": 1200, "thorough": 40000}],
+        "required_tags": ["negotiate.outcome:backend", "negotiate.outcome:reject", "negotiate.outcome:unknown", "reader.adapter:transforming"],
         "trivial_tags": [],
         "level_text": "wip", "level_note": "wip",
     },
